@@ -133,7 +133,7 @@ def run(ctx: Ctx) -> None:
     sp2 = pair("ows_enable", None, quoted=False)
     mdtree = SObj("Tree", {"data": "metadata", "children": [models.token("METADATA", "METADATA"), sp1, sp2, models.token("_END", "END")], "meta": SObj("Meta", {})})
     tree = SObj("Tree", {"data": "composite", "children": [mdtree], "meta": SObj("Meta", {"comments": [C("block")]}), "_main_result": lambda: layout.cdict([("__type__", "metadata"), ("wms_title", "v"), ("ows_enable", "v")])})
-    outs = I3.explore("transformer.CommentsTransformer._save_composite_comments", lambda: (ctinst(), [tree], {}))
+    outs = I3.explore("transformer.CommentsTransformer.composite", lambda: (ctinst(), [tree], {}))
     o = outs[0]
     com = o.value.get("__comments__") if o.kind == "return" else None
     good = isinstance(com, dict) and com.get("__type__") == [C("block")] and com.get("wms_title") == [C("p1")] and com.get("ows_enable") == []
